@@ -117,7 +117,9 @@ class CModel(object):
     def valid(self, op):
         name = op[0]
         if name == 'pop':
-            return len(self.frames) == 1 or self.top().kind is None
+            # (an anonymous group may also end while an environment opened inside it is still on top: groups interleaved with
+            # environments; the group end then sweeps the environment's frame away with its own)
+            return True
         if name == 'popenv':
             return any(f.kind == op[1] for f in self.frames[1:])
         if name == 'letm':
@@ -131,8 +133,10 @@ class CModel(object):
         elif name == 'pushenv':
             self.frames.append(Frame(op[1], self.top().cats))
         elif name == 'pop':
-            if len(self.frames) > 1:
-                self.frames.pop()
+            while len(self.frames) > 1:
+                f = self.frames.pop()
+                if f.kind is None:
+                    break
         elif name == 'popenv':
             while len(self.frames) > 1:
                 f = self.frames.pop()
